@@ -228,7 +228,8 @@ class Runner:
 # ------------------------------------------------------------------------------------------
 # generators of histories
 
-def gen_history(rng, length, with_dotrial=False):
+def gen_history(rng, length, with_dotrial=False, spec=None):
+    scrs = pf.scramblers_for(spec) if spec else pf.SCRAMBLERS
     ops, nh = [], 0
     while len(ops) < length:
         ks = ['genFixed', 'genFixed', 'genMC', 'genMC', 'genComp', 'genComp', 'genSig', 'genSigReal', 'genSigReal', 'unblind', 'evaluate']
@@ -241,7 +242,7 @@ def gen_history(rng, length, with_dotrial=False):
         k = rng.choice(ks)
         op = {'op': k, 'seed': rng.randrange(1, 10**6)}
         if k == 'genFixed':
-            op['scr'] = rng.choice(pf.SCRAMBLERS)
+            op['scr'] = rng.choice(scrs)
             nh += 1
         elif k in ('genMC', 'genComp'):
             nh += 1
@@ -261,7 +262,7 @@ def gen_history(rng, length, with_dotrial=False):
         elif k == 'doTrial':
             op['k'] = rng.choice([0, 2])
             op['mc'] = rng.choice([False, True, 'comp'])
-            op['scr'] = rng.choice(pf.SCRAMBLERS)
+            op['scr'] = rng.choice(scrs)
         ops.append(op)
     return ops
 
@@ -708,7 +709,7 @@ def run(ctx):
     deferred = []
     for i in range(ctx.n(60, 1200)):
         spec = pf.gen_spec(rng)
-        case = {'spec': spec, 'scr': rng.choice(pf.SCRAMBLERS + ['uniform_range', 'uniform_range']), 'seed': rng.randrange(10**6),
+        case = {'spec': spec, 'scr': rng.choice(pf.scramblers_for(spec) + ['uniform_range', 'uniform_range']), 'seed': rng.randrange(10**6),
                 'via': rng.choice(['scrambler', 'bkg'])}
         ctx.count('scramble:' + case['scr'])
         ctx.case(key=('scr', case), desc={'oracle': 'scramble', 'case': case} if i % 199 == 0 else None)
@@ -737,8 +738,11 @@ def run(ctx):
     maxlen = ctx.n(4, 6)
     for i in range(ctx.n(250, 6000)):
         spec = pf.gen_spec(rng)
-        ops = gen_history(rng, rng.randrange(1, maxlen + 1), with_dotrial=True)
+        ops = gen_history(rng, rng.randrange(1, maxlen + 1), with_dotrial=True, spec=spec)
         case = {'spec': spec, 'ops': ops}
+        ctx.count('class:n_exp=%s' % ('0' if spec['n_exp'] == 0 else '1' if spec['n_exp'] == 1 else '>1'))
+        ctx.count('class:exp_lacks=%s' % ('+'.join(spec.get('exp_lacks', [])) or 'nothing'))
+        ctx.count('class:%s dtypes' % ('narrow' if spec['narrow'] else 'wide'))
         for op in ops:
             ctx.count('frame-op:' + op['op'])
         ctx.case(key=('frame', case), desc={'oracle': 'frame', 'case': case} if i % 499 == 0 else None)
@@ -752,7 +756,7 @@ def run(ctx):
     batch, all_lines = [], []
     for i in range(ctx.n(300, 4500)):
         spec = pf.gen_spec(rng)
-        ops = gen_history(rng, rng.randrange(1, maxlen + 1))
+        ops = gen_history(rng, rng.randrange(1, maxlen + 1), spec=spec)
         case = {'spec': spec, 'ops': ops}
         for op in ops:
             ctx.count('corr-op:' + op['op'])
